@@ -1,2 +1,4 @@
 import HpoProps.C12
 import HpoProps.C20
+import HpoProps.C07
+import HpoProps.C08
